@@ -130,6 +130,7 @@ def clean_fields(fields):
 
 is_field_declaration = re.compile(r'^[a-z]+[a-z0-9\-]*:.*$', re.IGNORECASE).match
 is_field_continuation = re.compile(r'^[ \t]+[\S]+.*$', re.IGNORECASE).match
+split_lines = re.compile(r'\r\n|\n|\r').split
 
 
 @attr.s(slots=True)
@@ -204,9 +205,15 @@ class NumberedLine:
         """
         Return a list of Line from a ``text``
         """
+        # lines end at LF, CRLF or CR as in any text file: str.splitlines()
+        # would also break lines at form feeds and other separator characters
+        # and shift every later line number
+        lines = split_lines(text)
+        if lines and not lines[-1]:
+            lines.pop()
         return [
             cls(number=number, value=value)
-            for number, value in enumerate(text.splitlines(False), 1)
+            for number, value in enumerate(lines, 1)
         ]
 
     def to_dict(self):
